@@ -544,7 +544,30 @@ class Interp:
         key = (qual, self._loop_ordinal(s))
         spec = self.loop_specs.get(key)
         if spec is not None:
-            raise OutOfSubset('while loop contracts are handled by the contract module')
+            # cut point: (establish) then either one arbitrary iteration from a havoced invariant state, or the exit state
+            if spec.header is not None and spec.header != ast.unparse(s.test):
+                raise OutOfSubset(f'{self.source_name}:{s.lineno}: loop guard changed; loop contract {key} was written for `{spec.header}`')
+            spec.establish(self, env, None)
+            mode = getattr(spec, 'mode', None)
+            which = {'step': 0, 'exit': 1}[mode] if mode else self.ctx.choose(2, f'loop{key}')
+            n = SInt(z3.Int(self.ctx.fresh('n')))
+            self.ctx.assume(n.t >= 0)
+            spec.havoc(self, env, None, n, which == 1)
+            t = self.symtruth(self.eval(s.test, env))
+            if t is None:
+                raise OutOfSubset('while guard has no symbolic truth value')
+            if which == 0:
+                self.ctx.assume(t)
+                try:
+                    self.exec_block(s.body, env, qual)
+                except _Continue:
+                    pass
+                except _Break:
+                    raise OutOfSubset('break inside a while loop with a loop contract')
+                spec.preserve(self, env, None, n)
+                raise PathEnd(f'loop{key}: invariant preserved')
+            self.ctx.assume(self.not_(t))
+            return
         guard = 0
         while self.truth(self.eval(s.test, env)):
             guard += 1
@@ -1134,6 +1157,9 @@ def _m_isinstance(interp, v, cls):
         return any(c is str or (isinstance(c, type) and issubclass(type(v), c)) for c in classes)
     if isinstance(v, SChar):
         return any(c is str for c in classes)
+    from .values import SNum
+    if isinstance(v, SNum):
+        return any(c in (int, float, object) for c in classes)
     if isinstance(v, (SRing, SSign)):
         raise OutOfSubset('isinstance() of a coefficient value')
     real = tuple(c for c in classes if isinstance(c, type))
@@ -1310,6 +1336,12 @@ def _m_min(interp, *a, **k):
     if len(a) == 1:
         a = list(interp.iterate(a[0]))
     if any(is_sym(x) for x in a):
+        if not k and all(isinstance(x, (int, SInt)) and not isinstance(x, bool) for x in a):
+            r = a[0] if isinstance(a[0], SInt) else SInt(z3.IntVal(a[0]))
+            for x in a[1:]:
+                xt = x.t if isinstance(x, SInt) else z3.IntVal(x)
+                r = SInt(z3.If(xt < r.t, xt, r.t))
+            return r
         raise OutOfSubset('min() of symbolic values')
     return min(a, **k)
 
